@@ -50,7 +50,7 @@ def gen_cases(tier, seed):
     cases = []
     lin = list(itertools.product(A_SET, B_SET, C_SET, D_SET))
     # quick: one phase/start offset selected by the seed; thorough: all 8
-    for ph in ([seed % 8] if tier == 'quick' else range(8)):
+    for ph in ([seed % 8, (seed + 3) % 8, (seed + 5) % 8] if tier == 'quick' else range(8)):
         for (a, b, c, d), typ, st in itertools.product(lin, ('rate', 'increment'), STAMPS):
             cases.append(dict(kind='linear', a=a, b=b, c=c, d=d, type=typ, stamps=st, ladder=ladder,
                               t0=0.3 + 0.05 * ph))
